@@ -100,13 +100,14 @@ def build_jobs(t, sd):
                 add(name.replace("field:", "legal:field:"), rec, v, mode)
     # every other family
     versions = list(range(2, 11)) if thorough else [2, 3, 4, 6, 8, 10]
-    for v in versions:
+    for vi, v in enumerate(versions):
         for mode in ("A", "S") if (thorough or v in (2, 6)) else ("A",):
-            fams = gen.control_family(mode, v, thorough)[:: (1 if thorough else 2)] + gen.operator_sweep(mode, v, thorough) + gen.env_family(mode, v)
+            # (quick: every second control skeleton, the offset rotating with the version so that every skeleton is used)
+            fams = gen.control_family(mode, v, thorough)[(0 if thorough else vi % 2):: (1 if thorough else 2)] + gen.operator_sweep(mode, v, thorough) + gen.env_family(mode, v)
             if v >= 4:
                 fams += gen_subs.sub_family(mode, v, thorough)
             if v >= 3 and mode == "A":
-                fams += gen_opt.opt_family(mode, v, False)[:: (3 if thorough else 9)]
+                fams += gen_opt.opt_family(mode, v, False)[(vi % (3 if thorough else 9)):: (3 if thorough else 9)]
             for (name, rec, opts) in fams:
                 for opt in gen_subs.sub_options(v, thorough)[: (None if name.startswith("sub:") or thorough else 1)]:
                     add(name, rec, v, mode, opt, dyn=name.startswith(("sub:", "ctl:")), extra=opts)
